@@ -77,7 +77,8 @@ def gen_steps(rng, cfg, pfx, modname):
                           'sep': rng.choice(['none', 'none', 'blank']) if i > 0 else 'none',
                           'dirs': rng.choice(HARMLESS_DIRS)})
             chunk_start = True
-            chunk_semi = False
+            if steps[-1]['sep'] != 'none':
+                chunk_semi = False
             continue
         if rng.random() < cfg.p_say:
             form = 'say'
@@ -122,10 +123,10 @@ def gen_steps(rng, cfg, pfx, modname):
             chunk_start = True      # an inline directive makes the statement a part of its own
         if st['sep'] != 'none':
             chunk_start = True
-        if chunk_start:
             chunk_semi = False
-        if st.get('inline'):
-            chunk_semi = False
+        # (a directive cuts the chunk into parts, but how the chunk's final expression
+        # is evaluated -- REPL mode if a ';' line is present -- is decided for the
+        # whole chunk: directives do not reset chunk_semi, only wants and separators do)
         # ---- want
         prints = bool(W.form_out(st))
         isexpr = W.is_expr(st)
@@ -165,14 +166,35 @@ def gen_steps(rng, cfg, pfx, modname):
             st['want'] = want
             window_nonempty = False
             chunk_start = True
+            chunk_semi = False
         else:
             if prints:
                 window_nonempty = True
             chunk_start = bool(st.get('inline'))
-        if form in ('semi', 'semiemit') and not chunk_start:
+        if form in ('semi', 'semiemit') and not want:
             chunk_semi = True
         steps.append(st)
     return steps
+
+
+def indent_region(rng, steps):
+    """shift a run of statements to a deeper column: it starts directly under a
+    want and ends with the next want (or the doctest), so that both the step in
+    and the step back out happen right after a want, with no blank line"""
+    starts = [j for j in range(1, len(steps))
+              if steps[j - 1].get('want') and steps[j].get('sep', 'none') == 'none']
+    if not starts:
+        return False
+    j = rng.choice(starts)
+    k = j
+    while k < len(steps) - 1 and not steps[k].get('want') and steps[k + 1].get('sep', 'none') == 'none':
+        k += 1
+    if any(st['form'] in ('tq', 'tqprint') for st in steps[j:k + 1]):
+        return False
+    width = rng.choice([2, 4, 4, 8])
+    for st in steps[j:k + 1]:
+        st['indent'] = width
+    return True
 
 
 def gen_doc(rng, cfg, pfx, modname, indented=True):
@@ -181,6 +203,8 @@ def gen_doc(rng, cfg, pfx, modname, indented=True):
     nd = 1 if layout == 'freeform' else rng.randint(1, cfg.max_doctests_per_doc)
     for d in range(nd):
         dt = {'steps': gen_steps(rng, cfg, '%sd%d' % (pfx, d), modname)}
+        if cfg.get('p_indent') and rng.random() < cfg['p_indent']:
+            indent_region(rng, dt['steps'])
         if layout == 'google':
             dt['tag'] = rng.choice(['Example', 'Example', 'Doctest'])
         doc['doctests'].append(dt)
@@ -292,8 +316,7 @@ def fix_chunk_starts(steps):
     prev = None
     semi = False
     for st in steps:
-        if st['form'] == 'directive' or st.get('sep', 'none') != 'none' or (prev is not None and (prev.get('want') or prev.get('inline'))) \
-                or st.get('inline'):
+        if st.get('sep', 'none') != 'none' or (prev is not None and prev.get('want')):
             semi = False
         w = st.get('want') or ''
         if w.startswith('tb') and not W.is_expr(st) and prev is not None:
@@ -304,6 +327,9 @@ def fix_chunk_starts(steps):
         if w and st['form'] == 'emitop' and semi:
             st['sep'] = 'blank'
             semi = False
+        if st.get('indent') and (prev is None or not (prev.get('indent') or (prev.get('want') and st.get('sep', 'none') == 'none'))):
+            # a deeper column only directly under a want (or continuing one)
+            st['indent'] = 0
         if st['form'] in ('semi', 'semiemit'):
             semi = True
         prev = st
